@@ -55,7 +55,7 @@ Lemma at_sim_start_ok k c now m stage s :
   Fo m (x_w s) (x_w (fst (at_sim_start k c now m stage s))) /\ LogExt m s (fst (at_sim_start k c now m stage s)).
 Proof.
   unfold at_sim_start.
-  set (e := if stage =? 0 then exec k now m (CbStart stage) (c_tasks c) (pick_start c (inc (w_mod (x_w s) m))) s
+  set (e := if stage =? 0 then exec k now m (CbStart stage) (c_spawn c) (pick_start c (inc (w_mod (x_w s) m))) s
             else exec k now m (CbStart stage) [] [] s).
   assert (He : Fo m (x_w s) (x_w (fst e)) /\ LogExt m s (fst e)).
   { unfold e. destruct (stage =? 0); split; try apply exec_Fo; apply exec_LogExt. }
@@ -172,10 +172,16 @@ Lemma buf_process_glob c now m w :
   w_err (fst (buf_process c now m w)) = w_err w.
 Proof. unfold buf_process. destruct (shutdown_part_glob c now m (set_buf (set_fes w (fes_flush (w_buf w) (w_fes w))) [])) as (a & b & d). auto. Qed.
 
+Lemma cancelled_in m c x i : In i (cancelled m c x) -> (exists id, i = ICancel m id) \/ (exists id, i = ITaskEnd m id (inc x) 2).
+Proof.
+  unfold cancelled. intros Hi. apply in_app_or in Hi.
+  destruct Hi as [Hi|Hi]; apply in_map_iff in Hi; destruct Hi as (j & <- & _); [left|right]; eexists; reflexivity.
+Qed.
+
 Lemma cancelled_own m c x : Own m (cancelled m c x).
 Proof.
-  unfold cancelled, Own. apply Forall_forall. intros i Hi. apply in_flat_map in Hi. destruct Hi as (j & _ & Hj).
-  destruct (existsb _ _); [|destruct Hj]. destruct Hj as [<-|[]]. reflexivity.
+  unfold cancelled, Own. apply Forall_forall. intros i Hi. apply in_app_or in Hi.
+  destruct Hi as [Hi|Hi]; apply in_map_iff in Hi; destruct Hi as (j & <- & _); reflexivity.
 Qed.
 
 Lemma shutdown_part_own c now m w : Own m (snd (shutdown_part c now m w)).
